@@ -528,6 +528,9 @@ def c18(ctx):
     build_harness()
     # specification sanity: the calendar the rule days are computed with
     model_check(ctx, "MC_Civil", "MC_Civil_full" if ctx.thorough else "MC_Civil_quick", workers=4)
+    # ... and the lookup operators themselves against enumerative definitions (rule days by counting, the offset as
+    # "what the latest switch-over switched to", the latest transition by linear scan)
+    run_tlc(ctx, "MC_TZ", timeout=900)
     # channel A: synthesized files
     cases = gen_cases(ctx, "Gen_TZ", "C18", 16 if ctx.thorough else 8, cfg="Gen_TZ")
     mism = cases + ".mism"
@@ -772,6 +775,8 @@ def text_check(ctx):
     model_check(ctx, "MC_Pattern", "MC_Pattern_full" if ctx.thorough else "MC_Pattern_quick", workers=8, timeout=3000, heap="6g")
     if ctx.pid in ("C11", "C12", "C20"):
         model_check(ctx, "MC_Civil", "MC_Civil_quick", workers=4)     # the calendar fields the renderer reads
+    if ctx.pid == "C13":
+        run_tlc(ctx, "MC_Rfc3339", timeout=900)     # the recognizer against an independent writer; totality on edits
     cases = gen_cases(ctx, "Gen_Text", ctx.pid, cfg["gshards"], cfg="Gen_Text")
     obs = observe_and_validate(ctx, cases)
     text_validate(ctx, obs, "generated", {})
